@@ -178,3 +178,63 @@ oargmin = Fn(O + 'argmin', ret='r', level='L1', requires=['C08.argmin.finite:: a
 UNITS.append(Unit('C08_order', 'C08', [omin, omax, oargmin, oargmax], spec=ORDER_SPEC, preludes=PRE, broadcast=BC + ('l1_minmax',), level='L1',
                   notes='min / max return an attained bound of the data (NaN on empty input), argmin / argmax the first index attaining it, for every finite data set; '
                         'the folds are verified as their defining loops (rule R32)'))
+
+# ---------------------------------------------------------------- one-pass (shifted data) and online (Welford) covariance, histogram bin centres
+ONE_SPEC = r'''
+/// shifted sums after k observations:  sx = sum(x_i - x_0),  sy likewise,  sxy = sum (x_i - x_0)(y_i - y_0)
+pub open spec fn shifted_inv(x: Seq<f64>, y: Seq<f64>, k: int, sx: real, sy: real, sxy: real) -> bool {
+    sx == rsum(x, k) - (k as real) * rv(x[0]) && sy == rsum(y, k) - (k as real) * rv(y[0])
+    && sxy == rxy(x, y, k) - rv(x[0]) * rsum(y, k) - rv(y[0]) * rsum(x, k) + (k as real) * (rv(x[0]) * rv(y[0]))
+}
+/// online co-moment after k observations (division-free): k*mx = sum x, k*my = sum y, k*c = k*sum xy - sum x * sum y
+pub open spec fn online_inv(x: Seq<f64>, y: Seq<f64>, k: int, n: real, mx: real, my: real, c: real) -> bool {
+    n == k as real && n * mx == rsum(x, k) && n * my == rsum(y, k) && n * c == n * rxy(x, y, k) - rsum(x, k) * rsum(y, k) && (k == 0 ==> c == 0real)
+}
+'''
+NRA_ONE = [
+    Lemma('nra_shift_step', 'k x0 y0 xv yv sx sy sxy sumx sumy rxyv',
+          ['(= sx (- sumx (* k x0)))', '(= sy (- sumy (* k y0)))', '(= sxy (+ (- (- rxyv (* x0 sumy)) (* y0 sumx)) (* k (* x0 y0))))'],
+          ['(= (+ sx (- xv x0)) (- (+ sumx xv) (* (+ k 1) x0)))', '(= (+ sy (- yv y0)) (- (+ sumy yv) (* (+ k 1) y0)))',
+           '(= (+ sxy (* (- xv x0) (- yv y0))) (+ (- (- (+ rxyv (* xv yv)) (* x0 (+ sumy yv))) (* y0 (+ sumx xv))) (* (+ k 1) (* x0 y0))))']),
+    Lemma('nra_shift_final', 'n x0 y0 sx sy sxy sumx sumy rxyv c',
+          ['(> n 1)', '(= sx (- sumx (* n x0)))', '(= sy (- sumy (* n y0)))', '(= sxy (+ (- (- rxyv (* x0 sumy)) (* y0 sumx)) (* n (* x0 y0))))', '(= c (/ (- sxy (/ (* sx sy) n)) (- n 1)))'],
+          ['(= (* (* c (- n 1)) n) (- (* n rxyv) (* sumx sumy)))']),
+    Lemma('nra_online_step', 'k mx my c xv yv sumx sumy rxyv n1 mx1 my1 c1',
+          ['(>= k 0)', '(or (> k 0) (= c 0))', '(or (> k 0) (= sumx 0))', '(or (> k 0) (= sumy 0))', '(or (> k 0) (= rxyv 0))', '(= (* k mx) sumx)', '(= (* k my) sumy)', '(= (* k c) (- (* k rxyv) (* sumx sumy)))', '(= n1 (+ k 1))',
+           '(= mx1 (+ mx (/ (- xv mx) n1)))', '(= my1 (+ my (/ (- yv my) n1)))', '(= c1 (+ c (* (- xv mx) (- yv my1))))'],
+          ['(= (* n1 mx1) (+ sumx xv))', '(= (* n1 my1) (+ sumy yv))', '(= (* n1 c1) (- (* n1 (+ rxyv (* xv yv))) (* (+ sumx xv) (+ sumy yv))))']),
+    Lemma('nra_online_final', 'n c r', ['(> n 1)', '(= r (/ c (- n 1)))'], ['(= (* (* r (- n 1)) n) (* n c))']),
+]
+onepass = Fn(CV + 'sample_covariance_onepass', ret='r', level='L1', valid='x@.len() == y@.len()', panics={1: 'REJECT'}, requires=[MACH2S],
+             ensures=['C08.onepass.valid:: x@.len() == y@.len()', 'C08.onepass.def:: is_cov(x@, y@, rv(r), x@.len() as real - 1real)'],
+             loops={1: {'invariant': ['n == x@.len()', 'n == y@.len()', 'n > 1',
+                                      'C08.onepass.sums:: shifted_inv(x@, y@, i as int, rv(sx), rv(sy), rv(sxy))'],
+                        'body_ghost': 'let ghost (sx0, sy0, sxy0) = (rv(sx), rv(sy), rv(sxy));',
+                        'body_end': ('nra_shift_step(i as real, rv(x@[0]), rv(y@[0]), rv(x@[i as int]), rv(y@[i as int]), sx0, sy0, sxy0, rsum(x@, i as int), rsum(y@, i as int), rxy(x@, y@, i as int)); '
+                                     'assert(((i + 1) as real) == (i as real) + 1real);')}},
+             hints=[('for i in 0..n', 'before', 'proof { assert(shifted_inv(x@, y@, 0, rv(sx), rv(sy), rv(sxy))) by { assert(0real * rv(x@[0]) == 0real && 0real * rv(y@[0]) == 0real && 0real * (rv(x@[0]) * rv(y@[0])) == 0real && rv(x@[0]) * 0real == 0real && rv(y@[0]) * 0real == 0real) by(nonlinear_arith); } }'),
+                    ('(sxy - sx * sy / cast_f64(n)) / cast_f64((n - 1))', 'replace',
+                     '({ let c_ = (sxy - sx * sy / cast_f64(n)) / cast_f64((n - 1)); proof { assert(((n - 1) as real) == (n as real) - 1real); '
+                     'nra_shift_final(n as real, rv(x@[0]), rv(y@[0]), rv(sx), rv(sy), rv(sxy), rsum(x@, n as int), rsum(y@, n as int), rxy(x@, y@, n as int), rv(c_)); } c_ })')])
+online = Fn(CV + 'sample_covariance_online', ret='r', level='L1', valid='x@.len() == y@.len()', panics={1: 'REJECT'}, requires=[MACH2S],
+            ensures=['C08.online.valid:: x@.len() == y@.len()', 'C08.online.def:: is_cov(x@, y@, rv(r), x@.len() as real - 1real)'],
+            rewrites=[('let dx = i - meanx;', 'let dx = *i - meanx;', 'R17: `&f64 - f64` is `*i - rhs`'), ('let dy = j - meany;', 'let dy = *j - meany;', 'R17'),
+                      ('c += dx * (j - meany);', 'c += dx * (*j - meany);', 'R17')],
+            loops={1: {'iter_name': 'it', 'invariant': ['x@.len() == y@.len()', 'C08.online.comoment:: online_inv(x@, y@, it.index@, rv(n), rv(meanx), rv(meany), rv(c))'],
+                       'body_ghost': 'let ghost (n0, mx0, my0, c0) = (rv(n), rv(meanx), rv(meany), rv(c)); let ghost k_ = it.index@;',
+                       'body_start': 'assert(*i == x@[k_]); assert(*j == y@[k_]);',
+                       'body_end': ('assert(rv(n) == n0 + 1real); assert(rv(n) != 0real); '
+                                    'nra_online_step(n0, mx0, my0, c0, rv(x@[k_]), rv(y@[k_]), rsum(x@, k_), rsum(y@, k_), rxy(x@, y@, k_), rv(n), rv(meanx), rv(meany), rv(c)); '
+                                    'assert(((k_ + 1) as real) == (k_ as real) + 1real);')}},
+            hints=[('for (i, j) in it: x.iter().zip(y.iter())', 'before', 'proof { assert(online_inv(x@, y@, 0, rv(n), rv(meanx), rv(meany), rv(c))) by { assert(0real * rv(meanx) == 0real && 0real * rv(meany) == 0real && 0real * rv(c) == 0real && 0real * 0real == 0real) by(nonlinear_arith); } }'),
+                   ('c / (n - 1.)', 'replace', '({ let r_ = c / (n - 1.); proof { assert(rv(n) == x@.len() as real); nra_online_final(rv(n), rv(c), rv(r_)); } r_ })')])
+hist = Fn('statistics::hist::hist_bin_centers', ret='r', level='L0', requires=['C08.hist.edges:: edges@.len() >= 1'],
+          ensures=['C08.hist.count:: r.v@.len() == edges@.len() - 1',
+                   'C08.hist.centres:: forall|i: int| 0 <= i < r.v@.len() ==> #[trigger] r.v@[i] == f_div(f_add(edges@[i], edges@[i + 1]), 2.0f64)'],
+          rewrites=[('(0..edges.len() - 1).map(', 'Vector { v: (0..edges.len() - 1).map(', 'R26'), ('.collect()', '.collect::<Vec<f64>>() }', 'R26 (second half)')],
+          closures={1: {'params': 'i: usize', 'ret': 'o: f64', 'requires': ['i + 1 < edges@.len()'], 'ensures': ['o == f_div(f_add(edges@[i as int], edges@[i + 1]), 2.0f64)']}})
+from contracts import core as core_
+UNITS.append(Unit('C08_onepass', 'C08', [onepass, online, hist], spec=SPEC + COV_SPEC + ONE_SPEC, nra=NRA_COV + NRA_ONE, preludes=PRE, broadcast=BC, level='L1',
+                  types=['linalg::array::vec::{struct Vector}'],
+                  fingerprints=[('linalg::array::vec::{impl FromIterator<f64> for Vector}::from_iter', '{ Self { v: Vec::from_iter(iter) } }')],
+                  notes='the one-pass (shifted data) and online (Welford co-moment) sample covariances equal the definition for every data set; histogram bin centres are the midpoints of adjacent edges'))
